@@ -115,10 +115,18 @@ def _keys():
     import dns.rdataclass
     import dns.rdatatype
 
-    return [
-        (dns.name.from_text(f"k{i}.example."), dns.rdatatype.A, dns.rdataclass.IN)
-        for i in range(NKEYS)
+    # "over any key set": keys that share the owner name and differ in type (incl. ANY, under which
+    # the resolver files negative answers) or class, besides keys with different names
+    n0, n1 = dns.name.from_text("k0.example."), dns.name.from_text("k1.example.")
+    ks = [
+        (n0, dns.rdatatype.A, dns.rdataclass.IN),
+        (n0, dns.rdatatype.ANY, dns.rdataclass.IN),
+        (n1, dns.rdatatype.A, dns.rdataclass.IN),
+        (n0, dns.rdatatype.MX, dns.rdataclass.IN),
+        (n0, dns.rdatatype.A, dns.rdataclass.CH),
+        (n1, dns.rdatatype.ANY, dns.rdataclass.IN),
     ]
+    return ks[:NKEYS]
 
 
 def _real_answer(key, ttl, vid, clock):
@@ -126,11 +134,12 @@ def _real_answer(key, ttl, vid, clock):
     import dns.rdata
     import dns.resolver
 
-    q = dns.message.make_query(key[0], key[1], key[2], id=1)
+    # the cached value is an A/IN answer whatever the key says: the caches treat keys as opaque
+    q = dns.message.make_query(key[0], "A", "IN", id=1)
     r = dns.message.make_response(q)
-    rrset = r.find_rrset(r.answer, key[0], key[2], key[1], create=True)
-    rrset.add(dns.rdata.from_text(key[2], key[1], "10.0.0.1"), ttl)
-    a = dns.resolver.Answer(key[0], key[1], key[2], r)
+    rrset = r.find_rrset(r.answer, key[0], 1, 1, create=True)
+    rrset.add(dns.rdata.from_text("IN", "A", "10.0.0.1"), ttl)
+    a = dns.resolver.Answer(key[0], 1, 1, r)
     if a.expiration != clock.now + ttl:
         raise HarnessError(f"real Answer expiration {a.expiration} != now {clock.now} + ttl {ttl}")
     a.vid = vid
